@@ -207,6 +207,14 @@ def guard_interval(cx, p):
             d = dict(cond_facts(p)).get(('discr', ('ret', k)))
             if n is not None and ln is not None and d is not None and d[0] == 'int':
                 (poly.le if d[1] == 1 else poly.gt)(n, ln)
+        if e['kind'] == 'call' and rp(e) == SL + 'split_at_checked':
+            # frames.split_at_checked(n): Some((front, back)) iff n <= len
+            (b_, h_, fr_), _fi = wsym(cx)
+            n = lin(cx, p, e['args'][1])
+            ln = Aff.sym('L') if e['args'][0] == ('ref', (('P', fr_), ())) else None
+            d = dict(cond_facts(p)).get(('discr', ('ret', k)))
+            if n is not None and ln is not None and d is not None and d[0] == 'int':
+                (poly.le if d[1] == 1 else poly.gt)(n, ln)
     return poly
 
 
@@ -250,6 +258,13 @@ def check_windower(run, cx, cfg):
                 if len(sp) >= 1:
                     chunk = sp[:1]
                     chunk_ref = ('ref', (('P', ('field', ('ret', sp[0][0]), 0)), ()))
+            if not chunk:
+                # frames.split_at_checked(bin)?.0
+                sp = [(k, e) for k, e in call_events(p) if rp(e) == SL + 'split_at_checked' and e['args'][0] == ('ref', (('P', fr), ())) and e['args'][1] == b
+                      and dict(cond_facts(p)).get(('discr', ('ret', k))) == ('int', 1, 'isize')]
+                if len(sp) >= 1:
+                    chunk = sp[:1]
+                    chunk_ref = ('ref', (('P', ('field', ('field', ('variant', ('ret', sp[0][0]), 1), 0), 0)), ()))
             if len(chunk) != 1:
                 bad = 'the chunk must be frames[..bin]'
                 break
